@@ -21,6 +21,15 @@ use crate::report::{trace, Report};
 use crate::rng::{derive, hash_str, Rng, Sig};
 
 static NONCE: AtomicU64 = AtomicU64::new(0x7000_0000);
+/// A dead (stale) handle that restricted-view items are asked to look up while a join runs; any hit is recorded.
+static STALE_PROBE: std::sync::Mutex<Option<Entity>> = std::sync::Mutex::new(None);
+static STALE_HIT: std::sync::Mutex<Option<String>> = std::sync::Mutex::new(None);
+fn stale_probe() -> Option<Entity> {
+    *STALE_PROBE.lock().unwrap_or_else(|e| e.into_inner())
+}
+fn stale_hit(s: String) {
+    *STALE_HIT.lock().unwrap_or_else(|e| e.into_inner()) = Some(s);
+}
 fn nonce() -> u64 {
     NONCE.fetch_add(1, Ordering::Relaxed)
 }
@@ -94,6 +103,11 @@ where
 }
 impl<'a, C: Comp> Norm for PairedStorageRead<'a, C> {
     fn norm(self) -> Slot {
+        if let Some(h) = stale_probe() {
+            if let Some(c) = self.get_other(h) {
+                stale_hit(format!("get_other({:?}) on an item of a restricted {} join returned {:?} for a dead handle", h, C::NAME, c.observe()));
+            }
+        }
         Slot::Comp(self.get().observe())
     }
 }
@@ -109,6 +123,14 @@ where
 }
 impl<'a, C: Comp> Norm for PairedStorageWriteExclusive<'a, C> {
     fn norm(mut self) -> Slot {
+        if let Some(h) = stale_probe() {
+            if let Some(c) = self.get_other(h) {
+                stale_hit(format!("get_other({:?}) on an item of a restricted {} lending join returned {:?} for a dead handle", h, C::NAME, c.observe()));
+            }
+            if let Some(c) = self.get_other_mut(h) {
+                stale_hit(format!("get_other_mut({:?}) on an item of a restricted {} lending join returned {:?} for a dead handle", h, C::NAME, c.observe()));
+            }
+        }
         let mut a = self.get_mut();
         a.access_mut().set_payload(nonce());
         Slot::Written(a.observe())
@@ -664,6 +686,13 @@ fn run_case(rep: &mut Report, case: u64, defs: &[ShapeDef]) {
     world.delete_entities(&kill).expect("setup");
     let mut live: BTreeMap<u32, Entity> = all.iter().filter(|e| keep.contains(&e.id())).map(|e| (e.id(), *e)).collect();
     let mut dead: Vec<Entity> = kill.iter().cloned().take(16).collect();
+    // entities created through shared access and deleted immediately before any maintain: they must
+    // not linger in the entities join
+    for _ in 0..rng.below(3) {
+        let e = world.entities().create();
+        world.delete_entity(e).expect("delete un-merged entity");
+        dead.push(e);
+    }
     // a few entities created through shared access (still awaiting maintain) and some pending deletions
     for _ in 0..rng.below(4) {
         let e = world.entities().create();
@@ -808,8 +837,15 @@ fn run_case(rep: &mut Report, case: u64, defs: &[ShapeDef]) {
         hist.push(line);
         rep.op(d.name);
         rep.bump(&format!("mode_{:?}", mode), 1);
+        // restricted members are additionally asked for a dead handle (index possibly reused)
+        *STALE_PROBE.lock().unwrap() = if model.dead.is_empty() { None } else { Some(model.dead[rng.below(model.dead.len())]) };
+        *STALE_HIT.lock().unwrap() = None;
         let out = (d.f)(&world, &mut aux, mode, &probes);
+        *STALE_PROBE.lock().unwrap() = None;
         let r: R = (|| {
+            if let Some(m) = STALE_HIT.lock().unwrap().take() {
+                return Err(("C06", format!("{} ({:?}): {}", d.name, mode, m)));
+            }
             let effective_get = mode == Mode::LendGet && d.flag != 1;
             if !effective_get {
                 // membership, order, multiplicity
@@ -1083,15 +1119,16 @@ pub mod par {
         let n = if small {
             rng.range(1, 200)
         } else {
-            match rng.weighted(&[25, 40, 25, 10]) {
+            match rng.weighted(&[25, 40, 24, 8, 3]) {
                 0 => rng.range(1, 64),
                 1 => rng.range(65, 600),
                 2 => 4300,
-                _ => 9000,
+                3 => 9000,
+                _ => 34000, // more than 256 non-empty 64-index words: deep producer splits
             }
         };
         let all: Vec<Entity> = world.create_iter().take(n).collect();
-        let style = rng.below(3);
+        let style = if n > 20000 { 0 } else { rng.below(3) };
         let mut keep: BTreeSet<u32> = BTreeSet::new();
         for e in &all {
             let i = e.id();
@@ -1107,6 +1144,10 @@ pub mod par {
         let kill: Vec<Entity> = all.iter().filter(|e| !keep.contains(&e.id())).cloned().collect();
         world.delete_entities(&kill).expect("setup");
         let mut live: BTreeMap<u32, Entity> = all.iter().filter(|e| keep.contains(&e.id())).map(|e| (e.id(), *e)).collect();
+        for _ in 0..rng.below(3) {
+            let e = world.entities().create();
+            world.delete_entity(e).expect("delete un-merged entity");
+        }
         for _ in 0..rng.below(3) {
             let e = world.entities().create();
             live.insert(e.id(), e);
